@@ -61,7 +61,7 @@ def pull_helper(fname, meta, repo_root):
         params, rty = m.group(1), m.group(2).strip()
         body = item[m.end() - 1:]
         return (f"\n// R39 auto-pulled helper, verbatim from {rel}; contract = its own body read as a spec expression\n"
-                f"fn {fname}({params}) -> (hr: {rty})\n    ensures hr == ({{ let hs: {rty} = {body}; hs }}),\n{body}\n")
+                f"fn {fname}({params}) -> (r39_hr: {rty})\n    ensures r39_hr == ({{ let hs: {rty} = {body}; hs }}),\n{body}\n")
     return None
 
 
@@ -163,6 +163,20 @@ def run_template(prop, template_path, repo_root=None, rlimit=30, timeout=600, ex
             if t: hs[fn_] = t
         if len(hs) > len(_helpers or {}):
             return run_template(prop, template_path, repo_root=repo_root, rlimit=rlimit, timeout=timeout, extra_args=extra_args, _helpers=hs)
+    # failures of AUTO-GENERATED annotations (R43 closure `ensures r43_cr == (body)`, R39 helper `ensures r39_hr == body`) are not
+    # contract failures: the exec body could not be equated with its spec reading (generic `==`, overflow, ..).  The closure /
+    # helper is then as good as unannotated: every failure in the same item (R43) or in the whole template (R39) is undecided.
+    auto_failed_items, auto_failed_all = set(), False
+    for d in errors:
+        prim = next((s_ for s_ in d.get("spans", []) if s_.get("is_primary")), None)
+        txt = " ".join(t_["text"] for s_ in d.get("spans", []) for t_ in (s_.get("text") or []))
+        if "r43_cr ==" in txt and "closure" in d.get("message", ""):
+            ln = prim["line_start"] if prim else 0
+            it_ = next((it for it in meta["items"] if it["line_lo"] <= ln <= it["line_hi"]), None)
+            if it_: auto_failed_items.add(it_["sel"])
+            else: auto_failed_all = True
+        if "r39_hr ==" in txt:
+            auto_failed_all = True
     for d in errors:
         msg = d.get("message", "")
         prim = next((s for s in d.get("spans", []) if s.get("is_primary")), None)
@@ -200,6 +214,10 @@ def run_template(prop, template_path, repo_root=None, rlimit=30, timeout=600, ex
             f["tool_limit"] = True
             f["demoted"] = True
             f["message"] = msg + f" [undecided: {item['sel']} gained closure(s) without a contract: {new_closures[item['sel']][:2]}]"
+        if not f.get("tool_limit") and (auto_failed_all or (item and item["sel"] in auto_failed_items)):
+            f["tool_limit"] = True
+            f["demoted"] = True
+            f["message"] = msg + " [undecided: an auto-generated annotation (R43 closure / R39 helper: body read as spec) could not be proved equal to its exec body, so the closure / helper is as good as unannotated]"
         if not f.get("tool_limit") and item and item["sel"] in lost_ghost:
             # the proof of this item lost ghost hints whose splice points no longer exist: a failure may be a missing hint
             f["tool_limit"] = True
